@@ -54,14 +54,14 @@ MANIFEST = {
                     "transition system (look up, lock, byte-by-byte write, unlock) and ChannelSink's select in a timed model; theorems: writer_success_iff, "
                     "writer_success_writes, writer_only_the_value, absent-format / failed-write / short-write errors, default_format_json (both sinks), "
                     "writes_contiguous (+ _always) for every schedule, filesink_success_iff, filesink_success_prefix_then_value, filesink_success_received_partial (+ filesink_retry_exactly_refuted: in the model the retry after a partially failed Write leaves prefix ++ value), filesink_only_the_value, devnull / std bypass, channel_some_arm, "
-                    "channel_exactly_one, channel_never_both, channel_bounded_partial (model only); tie: sinksh runs every table of 0..3 formats (values empty / "
+                    "channel_exactly_one, channel_never_both, channel_bounded_partial (model only); verdict_is_model_execution (RunGatedSound / RunSinksSound: the evaluator's empty mismatch list <-> every observed case is an execution of the model meeting the oracles, both directions); tie: sinksh runs every table of 0..3 formats (values empty / "
                     "1 byte / several) x configured format (unset, 3 present, 1 absent) x 7 writer behaviours (+ nil writer/event/map, 5000-byte value), 40 error VALUES (io.EOF, io.ErrUnexpectedEOF, io.ErrShortWrite, io.ErrClosedPipe, os.ErrClosed, context.Canceled/DeadlineExceeded, ENOSPC/EAGAIN/EINTR/EPIPE, os.ErrDeadlineExceeded, io.ErrNoProgress; bare, %w-wrapped, in an *os.PathError; a private error) x {0, part, all} bytes written before the error, "
                     "1..16 concurrent Process calls with the stream split back into whole values (thorough: under -race), FileSink under part-way failing writes (RLIMIT_FSIZE in a child process; finding KF-C13-filesink-retry-leaves-prefix), FileSink on file / /dev/null / "
                     "stdout / stderr / ENOSPC destination / uncreatable directory, 84 ChannelSink scenarios and simultaneous ChannelSink callers on a buffered channel with fewer free slots than callers, released through a spin barrier, nobody draining, every call under a watchdog (channel empty, receiver waiting, full, "
                     "drained late x context none/done/early/late x timeout short/long) on the real sinks; Run_Sinks.mismatches evaluated by vm_compute",
             "design_ref": "5.C13", "note": _NOTE, "technique": _TECH, "engine": "coq-sinks", "category": "proof"},
 }
-ENGINE = {"name": "coq-sinks", "path": "coq/Sinks.v coq/SinksProofs.v coq/SinksExamples.v coq/Run_Sinks.v harness/cmd/sinksh lib/eng_sinks.py",
+ENGINE = {"name": "coq-sinks", "path": "coq/Sinks.v coq/SinksProofs.v coq/SinksExamples.v coq/Run_Sinks.v coq/RunSinksSound.v harness/cmd/sinksh lib/eng_sinks.py",
           "serves_properties": ["C13"], "kind_free_text": "Coq model + proofs; Go differential driver; vm_compute comparison"}
 
 
@@ -175,7 +175,7 @@ def run(ctx):
             part["known_finding_reported_by_engine"] = PROPOSED_KNOWN
             continue
         ctx.violations.append(v)
-    part["rule"] = ("w: every table of 0..3 formats x stored value (empty, 1 byte, several) x configured format x writer behaviour, exhaustively; c: 1..16 goroutines "
+    part["rule"] = ("contexts: writer.Sink / FileSink calls are also made with a live cancellable, an already cancelled, a past-deadline and a custom done context (the model ignores the context), ChannelSink scenarios include those as ready context arms; w: every table of 0..3 formats x stored value (empty, 1 byte, several) x configured format x writer behaviour, exhaustively; c: 1..16 goroutines "
                     "each making 1..6 Process calls on one sink, the destination records bytes one at a time and flags overlapping Write calls; f: FileSink per "
                     "destination kind x format x table; h: ChannelSink timed scenarios, arms within the slack of the earliest are both accepted (counted "
                     "':ambiguous' in stats) and competing arms are otherwise seconds apart. distinct_nontrivial = distinct cases in which a Write call was made / "
